@@ -408,6 +408,14 @@ fn eval_cases(cx: &mut Ctx, exe: &std::path::Path, cases: &[Case], bound: Durati
         if o.get("bfs").map_or(false, |x| x == "none") {
             cx.rep.count("unreachable_target");
         }
+        if c.only.is_none() {
+            if let Some(fv) = o.get("flow").and_then(|x| x.parse::<u64>().ok()) {
+                if needs_cancellation(&c.g, c.s, c.t, fv) {
+                    cx.rep.count("flow_needs_cancellation");
+                    cx.rep.count(&format!("flow_needs_cancellation:{}", c.origin));
+                }
+            }
+        }
         let obs_txt: Vec<String> = o.iter().map(|(k, v)| format!("{}={}", k, v)).collect();
         let body = format!("case {} {} {}\nimpl  {}\nmodel {}\nspec  {}", gt, c.s, c.t, obs_txt.join(" "), m, sp);
         if cx.rep.samples.len() < 3 && c.g.nontrivial() && c.g.n >= 4 {
@@ -436,6 +444,7 @@ fn eval_cases(cx: &mut Ctx, exe: &std::path::Path, cases: &[Case], bound: Durati
             for f in fields.split(',') {
                 let sig = signature(&c.g, c.s, c.t, f);
                 cx.rep.count(&format!("spec_violation:{}", sig));
+                cx.rep.count(&format!("spec_violation_by_origin:{}:{}", f, c.origin));
                 cx.rep.spec_violation(&cx.known, &sig, &format!("`{}` answer violates its specification on `{}`", f, canon), &body);
             }
             continue;
@@ -509,6 +518,9 @@ struct StoreDesc {
     nodes: Vec<u8>,
     /// (src, dst, type 0=R 1=S, weight kind)
     edges: Vec<(usize, usize, u8, WKind)>,
+    /// (source, target) node positions to use for the path / flow procedures when both are in
+    /// the projection (structured stores); otherwise they derive from the description
+    hint: Option<(usize, usize)>,
 }
 
 #[derive(Clone, Debug)]
@@ -535,7 +547,12 @@ impl StoreDesc {
                 format!("{}.{}.{}.{}", u, v, ty, k)
             })
             .collect();
-        format!("{} {}", if ns.is_empty() { "-".into() } else { ns.join(",") }, if es.is_empty() { "-".into() } else { es.join(",") })
+        format!(
+            "{} {}{}",
+            if ns.is_empty() { "-".into() } else { ns.join(",") },
+            if es.is_empty() { "-".into() } else { es.join(",") },
+            self.hint.map_or(String::new(), |(a, b)| format!(" st={}.{}", a, b))
+        )
     }
     fn parse(ns: &str, es: &str) -> Option<StoreDesc> {
         let nodes: Vec<u8> = if ns == "-" { vec![] } else { ns.split(',').map(|x| x.parse().ok()).collect::<Option<Vec<u8>>>()? };
@@ -560,7 +577,7 @@ impl StoreDesc {
                 edges.push((u, v, ty, w));
             }
         }
-        Some(StoreDesc { nodes, edges })
+        Some(StoreDesc { nodes, edges, hint: None })
     }
 }
 
@@ -722,8 +739,14 @@ fn eval_store(cx: &mut Ctx, drv: &mut driver::Driver, d: &StoreDesc) {
         }
         // CALL algo.* for the projections the procedures can express
         let ix: HashMap<u64, usize> = v.index_to_node.iter().enumerate().map(|(i, x)| (*x, i)).collect();
-        let s = rng.usize(mg.n);
+        let mut s = rng.usize(mg.n);
         let mut t = rng.usize(mg.n);
+        if let Some((a, b)) = d.hint {
+            if let (Some(x), Some(y)) = (ix.get(&ids[a]), ix.get(&ids[b])) {
+                s = *x;
+                t = *y;
+            }
+        }
         if t == s {
             t = (t + 1) % mg.n; // s = t goes through the crate-level cases
         }
@@ -862,6 +885,468 @@ fn eval_store(cx: &mut Ctx, drv: &mut driver::Driver, d: &StoreDesc) {
 
 // ------------------------------------------------------------------------------------------
 
+
+// ---------------------------------------------------------------------------------------
+// Structured families: inputs a uniform random graph rarely produces, one group per
+// algorithm.  Every family is emitted under a random relabelling of the node indices, a
+// random shuffle of the edge listing (both change the CSR order and so the tie-break of
+// BFS / the heap), and optionally mirrored (all edges reversed, source and target swapped).
+// All of them go through `eval_cases`: same model comparison, same Lean certificate checks.
+// ---------------------------------------------------------------------------------------
+
+struct Shape {
+    n: usize,
+    edges: Vec<(usize, usize, u64)>,
+    s: usize,
+    t: usize,
+}
+
+fn shuffle<T>(rng: &mut Rng, v: &mut Vec<T>) {
+    for i in (1..v.len()).rev() {
+        let j = rng.usize(i + 1);
+        v.swap(i, j);
+    }
+}
+
+fn finish(rng: &mut Rng, sh: Shape, origin: &'static str, out: &mut Vec<Case>) {
+    let Shape { n, mut edges, mut s, mut t } = sh;
+    if n == 0 {
+        return;
+    }
+    if rng.chance(1, 3) {
+        edges = edges.into_iter().map(|(u, v, w)| (v, u, w)).collect();
+        std::mem::swap(&mut s, &mut t);
+    }
+    let mut perm: Vec<usize> = (0..n).collect();
+    if rng.chance(3, 4) {
+        shuffle(rng, &mut perm);
+    }
+    let mut edges: Vec<(usize, usize, u64)> = edges.into_iter().map(|(u, v, w)| (perm[u], perm[v], w)).collect();
+    match rng.usize(3) {
+        0 => {}
+        1 => edges.reverse(),
+        _ => shuffle(rng, &mut edges),
+    }
+    out.push(Case { g: G { n, edges }, s: perm[s], t: perm[t], origin, only: None });
+}
+
+/// a path of fresh nodes from `a` to `b` with `len` edges (len >= 1), all of capacity `c`
+fn add_path(n: &mut usize, edges: &mut Vec<(usize, usize, u64)>, a: usize, b: usize, len: usize, c: u64) {
+    let mut cur = a;
+    for _ in 1..len {
+        let nx = *n;
+        *n += 1;
+        edges.push((cur, nx, c));
+        cur = nx;
+    }
+    edges.push((cur, b, c));
+}
+
+/// max-flow: the classic shape where the shortest augmenting path s ~> a -> d ~> t is in no
+/// maximum flow: a second unit reaches `d` over a longer route and the first one has to be
+/// pushed back over d -> a and re-routed over a longer route from `a` to `t`.
+fn flow_zigzag(rng: &mut Rng) -> Shape {
+    let (mut n, mut edges) = (2usize, vec![]);
+    let (s, t) = (0, 1);
+    let c = 1 + rng.below(3);
+    let (pre, suf) = (1 + rng.usize(2), 1 + rng.usize(2));
+    let a = n;
+    let d = n + 1;
+    n += 2;
+    add_path(&mut n, &mut edges, s, a, pre, c);
+    edges.push((a, d, c));
+    add_path(&mut n, &mut edges, d, t, suf, c);
+    // longer route into d, longer route out of a
+    add_path(&mut n, &mut edges, s, d, pre + 2 + rng.usize(2), c);
+    add_path(&mut n, &mut edges, a, t, suf + 2 + rng.usize(2), c);
+    if rng.chance(1, 3) {
+        // a second stage of the same kind hanging off the first: more than one cancellation
+        let (a2, d2) = (n, n + 1);
+        n += 2;
+        edges.push((s, a2, c));
+        edges.push((a2, d2, c));
+        edges.push((d2, t, c));
+        add_path(&mut n, &mut edges, s, d2, 3, c);
+        add_path(&mut n, &mut edges, a2, t, 3, c);
+    }
+    if rng.chance(1, 4) {
+        // some slack somewhere: capacities are no longer all equal
+        let k = rng.usize(edges.len());
+        edges[k].2 += 1 + rng.below(2);
+    }
+    Shape { n, edges, s, t }
+}
+
+/// max-flow: two rails from s to t with rungs between them (unit / small capacities)
+fn flow_ladder(rng: &mut Rng) -> Shape {
+    let k = 2 + rng.usize(4); // rail length
+    let n = 2 + 2 * k;
+    let (s, t) = (0, 1);
+    let up = |i: usize| 2 + i;
+    let lo = |i: usize| 2 + k + i;
+    let mut edges = vec![(s, up(0), 1 + rng.below(2)), (s, lo(0), 1 + rng.below(2)), (up(k - 1), t, 1 + rng.below(2)), (lo(k - 1), t, 1 + rng.below(2))];
+    for i in 0..k - 1 {
+        edges.push((up(i), up(i + 1), 1));
+        edges.push((lo(i), lo(i + 1), 1));
+    }
+    for i in 0..k {
+        match rng.usize(4) {
+            0 => edges.push((up(i), lo(i), 1)),
+            1 => edges.push((lo(i), up(i), 1)),
+            2 if i + 1 < k => edges.push((up(i), lo(i + 1), 1)),
+            3 if i + 1 < k => edges.push((lo(i), up(i + 1), 1)),
+            _ => {}
+        }
+        if i + 2 < k && rng.chance(1, 3) {
+            edges.push((up(i), lo(i + 2), 1 + rng.below(2))); // a shortcut: the tempting path
+        }
+    }
+    Shape { n, edges, s, t }
+}
+
+/// max-flow: layered network, random edges between consecutive layers, a few skip edges
+fn flow_layered(rng: &mut Rng) -> Shape {
+    let layers = 2 + rng.usize(3);
+    let width = 2 + rng.usize(2);
+    let n = 2 + layers * width;
+    let (s, t) = (0, 1);
+    let at = |l: usize, i: usize| 2 + l * width + i;
+    let cmax = 1 + rng.below(3);
+    let mut edges = vec![];
+    for i in 0..width {
+        if rng.chance(3, 4) {
+            edges.push((s, at(0, i), 1 + rng.below(cmax)));
+        }
+        if rng.chance(3, 4) {
+            edges.push((at(layers - 1, i), t, 1 + rng.below(cmax)));
+        }
+    }
+    for l in 0..layers - 1 {
+        for i in 0..width {
+            for j in 0..width {
+                if rng.chance(1, 2) {
+                    edges.push((at(l, i), at(l + 1, j), 1 + rng.below(cmax)));
+                }
+            }
+        }
+    }
+    for _ in 0..rng.usize(3) {
+        let l = rng.usize(layers);
+        let l2 = rng.usize(layers);
+        if l + 1 < l2 {
+            edges.push((at(l, rng.usize(width)), at(l2, rng.usize(width)), 1)); // skip edge = shorter path
+        }
+    }
+    Shape { n, edges, s, t }
+}
+
+/// max-flow: sparse random digraph with small capacities, sink = a node farthest from the source
+/// (long augmenting paths of different lengths, unlike a dense random graph)
+fn flow_sparse_far(rng: &mut Rng) -> Shape {
+    let n = 9 + rng.usize(10);
+    let m = n + n / 2 + rng.usize(n);
+    let cmax = if rng.chance(3, 4) { 1 } else { 2 };
+    let mut edges = vec![];
+    let mut seen = std::collections::HashSet::new();
+    for _ in 0..m {
+        let (u, v) = (rng.usize(n), rng.usize(n));
+        if u != v && !seen.contains(&(v, u)) && seen.insert((u, v)) {
+            edges.push((u, v, 1 + rng.below(cmax)));
+        }
+    }
+    let s = rng.usize(n);
+    let mut dist = vec![usize::MAX; n];
+    dist[s] = 0;
+    let mut q = std::collections::VecDeque::from([s]);
+    let mut t = s;
+    while let Some(u) = q.pop_front() {
+        for (a, b, _) in &edges {
+            if *a == u && dist[*b] == usize::MAX {
+                dist[*b] = dist[u] + 1;
+                t = *b;
+                q.push_back(*b);
+            }
+        }
+    }
+    if t == s {
+        t = (s + 1) % n;
+    }
+    Shape { n, edges, s, t }
+}
+
+/// max-flow: bipartite matching as a unit network
+fn flow_matching(rng: &mut Rng) -> Shape {
+    let (l, r) = (2 + rng.usize(5), 2 + rng.usize(5));
+    let n = 2 + l + r;
+    let (s, t) = (0, 1);
+    let mut edges = vec![];
+    for i in 0..l {
+        edges.push((s, 2 + i, 1));
+    }
+    for j in 0..r {
+        edges.push((2 + l + j, t, 1));
+    }
+    let deg = 1 + rng.usize(3);
+    for i in 0..l {
+        for _ in 0..deg {
+            // skewed towards the first right-hand nodes: several left nodes compete for them
+            let j = if rng.chance(1, 2) { rng.usize(r.min(2)) } else { rng.usize(r) };
+            edges.push((2 + i, 2 + l + j, 1));
+        }
+    }
+    Shape { n, edges, s, t }
+}
+
+/// Dijkstra: a complete DAG where the unit chain is cheapest and w(i,j) grows faster than
+/// j - i: every node is queued early with a bad distance and improved again and again;
+/// zero-weight edges and parallel edges of different weights sprinkled in
+fn sp_staircase(rng: &mut Rng) -> Shape {
+    let n = 4 + rng.usize(9);
+    let mut edges = vec![];
+    let kind = rng.usize(3);
+    for i in 0..n {
+        for j in i + 1..n {
+            let d = (j - i) as u64;
+            let w = match kind {
+                0 => d * d,
+                1 => d * 10 - (d - 1), // barely better to take single steps... or not
+                _ => 1 + (d - 1) * (n as u64),
+            };
+            if d == 1 || rng.chance(2, 3) {
+                edges.push((i, j, w));
+            }
+        }
+    }
+    for _ in 0..rng.usize(4) {
+        let (i, j) = (rng.usize(n), rng.usize(n));
+        edges.push((i, j, 0)); // zero-weight edge, any direction (may close a zero/positive cycle)
+    }
+    for _ in 0..rng.usize(4) {
+        let k = rng.usize(edges.len());
+        let (u, v, w) = edges[k];
+        let w2 = if rng.chance(1, 2) { w + 1 + rng.below(5) } else { w.saturating_sub(1 + rng.below(3)) };
+        if rng.chance(1, 2) {
+            edges.insert(k, (u, v, w2)); // listed before
+        } else {
+            edges.push((u, v, w2));
+        }
+    }
+    Shape { n, edges, s: 0, t: n - 1 }
+}
+
+/// Dijkstra / BFS: plateaus of zero-weight edges (cycles included) joined by positive ones;
+/// hop-shortest and weight-shortest paths differ
+fn sp_plateaus(rng: &mut Rng) -> Shape {
+    let groups = 2 + rng.usize(3);
+    let size = 1 + rng.usize(3);
+    let n = groups * size + 1;
+    let mut edges = vec![];
+    for g in 0..groups {
+        for i in 0..size {
+            edges.push((g * size + i, g * size + (i + 1) % size, 0)); // zero cycle (self-loop when size = 1)
+        }
+        if g + 1 < groups {
+            edges.push((g * size + rng.usize(size), (g + 1) * size + rng.usize(size), 1 + rng.below(4)));
+        }
+    }
+    let t = n - 1;
+    edges.push(((groups - 1) * size, t, 1));
+    edges.push((0, t, 3 * groups as u64 + rng.below(6))); // one hop, maybe heavier than the long way
+    Shape { n, edges, s: 0, t }
+}
+
+/// SCC / WCC: cycles inside cycles, figure-eights, chords
+fn cc_nested_cycles(rng: &mut Rng) -> Shape {
+    let n = 3 + rng.usize(12);
+    let mut edges: Vec<(usize, usize, u64)> = (0..n).map(|i| (i, (i + 1) % n, 1)).collect();
+    if rng.chance(1, 3) {
+        edges.pop(); // open the outer cycle: only the chords create components now
+    }
+    for _ in 0..rng.usize(5) {
+        let (i, j) = (rng.usize(n), rng.usize(n));
+        edges.push((i.max(j), i.min(j), 1)); // a back chord: an inner cycle
+    }
+    for _ in 0..rng.usize(3) {
+        let (i, j) = (rng.usize(n), rng.usize(n));
+        edges.push((i.min(j), i.max(j), 1)); // a forward chord
+    }
+    Shape { n, edges, s: 0, t: n / 2 }
+}
+
+/// SCC / WCC: long chains (deep recursion / long union chains), optionally closed
+fn cc_chain(rng: &mut Rng) -> Shape {
+    let n = 10 + rng.usize(40);
+    let mut edges: Vec<(usize, usize, u64)> = (0..n - 1).map(|i| (i, i + 1, 1 + rng.below(3))).collect();
+    match rng.usize(4) {
+        0 => edges.push((n - 1, 0, 1)),
+        1 => edges.push((n / 2, 0, 1)),
+        2 => {
+            let k = rng.usize(edges.len());
+            edges.remove(k); // two chains
+        }
+        _ => {}
+    }
+    Shape { n, edges, s: 0, t: n - 1 }
+}
+
+/// SCC / WCC: a DAG of strongly connected blobs (the condensation is not trivial);
+/// now and then a back edge merges a whole stretch of it
+fn cc_condensation(rng: &mut Rng) -> Shape {
+    let blobs = 2 + rng.usize(5);
+    let mut start = vec![];
+    let mut n = 0;
+    let mut edges = vec![];
+    for _ in 0..blobs {
+        let k = 1 + rng.usize(4);
+        start.push((n, k));
+        if k > 1 {
+            for i in 0..k {
+                edges.push((n + i, n + (i + 1) % k, 1));
+            }
+        }
+        n += k;
+    }
+    for b in 0..blobs {
+        for c in b + 1..blobs {
+            if c == b + 1 && rng.chance(3, 4) || rng.chance(1, 4) {
+                edges.push((start[b].0 + rng.usize(start[b].1), start[c].0 + rng.usize(start[c].1), 1 + rng.below(3)));
+            }
+        }
+    }
+    if rng.chance(1, 4) {
+        let (b, c) = (rng.usize(blobs), rng.usize(blobs));
+        edges.push((start[b.max(c)].0, start[b.min(c)].0, 1));
+    }
+    Shape { n, edges, s: 0, t: n - 1 }
+}
+
+/// MST: every node is attached to the part built so far only by an edge pointing INTO that
+/// part (Prim has to look at incoming edges), with parallel edges heavier-first
+fn mst_incoming(rng: &mut Rng) -> Shape {
+    let n = 2 + rng.usize(9);
+    let mut edges = vec![];
+    for v in 1..n {
+        let u = rng.usize(v);
+        let w = 1 + rng.below(9);
+        if rng.chance(1, 2) {
+            edges.push((v, u, w + 1 + rng.below(9))); // heavier twin listed first
+        }
+        edges.push((v, u, w));
+        if rng.chance(1, 3) {
+            let u2 = rng.usize(v);
+            edges.push((v, u2, 1 + rng.below(12))); // a cycle in the underlying graph
+        }
+    }
+    Shape { n, edges, s: 0, t: n - 1 }
+}
+
+/// MST: several components (the answer spans only the start node's one), isolated nodes,
+/// a cycle with exactly one heavy edge, equal weights
+fn mst_disconnected(rng: &mut Rng) -> Shape {
+    let comps = 2 + rng.usize(3);
+    let mut n = 0;
+    let mut edges = vec![];
+    for _ in 0..comps {
+        let k = 1 + rng.usize(5);
+        if k >= 3 {
+            let heavy = rng.usize(k);
+            let base = 1 + rng.below(3);
+            for i in 0..k {
+                let w = if i == heavy { base + 5 } else { base };
+                if rng.chance(1, 2) { edges.push((n + i, n + (i + 1) % k, w)) } else { edges.push((n + (i + 1) % k, n + i, w)) }
+            }
+        } else if k == 2 {
+            edges.push((n + 1, n, 1 + rng.below(4)));
+        }
+        n += k;
+    }
+    Shape { n, edges, s: 0, t: n - 1 }
+}
+
+fn structured_cases(rng: &mut Rng, per_family: usize, out: &mut Vec<Case>) {
+    for _ in 0..per_family {
+        let sh = flow_zigzag(rng);
+        finish(rng, sh, "structured:flow-zigzag", out);
+        let sh = flow_ladder(rng);
+        finish(rng, sh, "structured:flow-ladder", out);
+        let sh = flow_layered(rng);
+        finish(rng, sh, "structured:flow-layered", out);
+        let sh = flow_matching(rng);
+        finish(rng, sh, "structured:flow-matching", out);
+        let sh = flow_sparse_far(rng);
+        finish(rng, sh, "structured:flow-sparse-far", out);
+        let sh = sp_staircase(rng);
+        finish(rng, sh, "structured:sp-staircase", out);
+        let sh = sp_plateaus(rng);
+        finish(rng, sh, "structured:sp-plateaus", out);
+        let sh = cc_nested_cycles(rng);
+        finish(rng, sh, "structured:cc-nested-cycles", out);
+        let sh = cc_chain(rng);
+        finish(rng, sh, "structured:cc-chain", out);
+        let sh = cc_condensation(rng);
+        finish(rng, sh, "structured:cc-condensation", out);
+        let sh = mst_incoming(rng);
+        finish(rng, sh, "structured:mst-incoming", out);
+        let sh = mst_disconnected(rng);
+        finish(rng, sh, "structured:mst-disconnected", out);
+    }
+}
+
+/// coverage metric: would a shortest-augmenting-path search that never uses a reverse
+/// residual arc (other than an original antiparallel edge) stop short of `maxflow` here?
+fn needs_cancellation(g: &G, s: usize, t: usize, maxflow: u64) -> bool {
+    if s == t {
+        return false;
+    }
+    let n = g.n;
+    let mut cap: HashMap<(usize, usize), u64> = HashMap::new();
+    let mut succ: Vec<Vec<usize>> = vec![vec![]; n];
+    for (u, v, w) in &g.edges {
+        if !cap.contains_key(&(*u, *v)) {
+            succ[*u].push(*v);
+        }
+        *cap.entry((*u, *v)).or_insert(0) += *w;
+    }
+    let mut total = 0u64;
+    loop {
+        let mut parent: Vec<Option<usize>> = vec![None; n];
+        let mut seen = vec![false; n];
+        seen[s] = true;
+        let mut q = std::collections::VecDeque::from([s]);
+        while let Some(u) = q.pop_front() {
+            if u == t {
+                break;
+            }
+            for v in &succ[u] {
+                if !seen[*v] && cap[&(u, *v)] > 0 {
+                    seen[*v] = true;
+                    parent[*v] = Some(u);
+                    q.push_back(*v);
+                }
+            }
+        }
+        if !seen[t] {
+            break;
+        }
+        let mut b = u64::MAX;
+        let mut v = t;
+        while let Some(u) = parent[v] {
+            b = b.min(cap[&(u, v)]);
+            v = u;
+        }
+        let mut v = t;
+        while let Some(u) = parent[v] {
+            *cap.get_mut(&(u, v)).unwrap() -= b;
+            if let Some(r) = cap.get_mut(&(v, u)) {
+                *r += b;
+            }
+            v = u;
+        }
+        total += b;
+    }
+    total < maxflow
+}
+
 fn random_graph(rng: &mut Rng, nmax: usize) -> G {
     let n = 1 + rng.usize(nmax);
     let style = rng.usize(5);
@@ -905,7 +1390,7 @@ fn random_store(rng: &mut Rng) -> StoreDesc {
             (rng.usize(n), rng.usize(n), if rng.chance(2, 3) { 0 } else { 1 }, w)
         })
         .collect();
-    StoreDesc { nodes, edges }
+    StoreDesc { nodes, edges, hint: None }
 }
 
 fn exhaustive(n: usize, len: usize, out: &mut Vec<Case>) {
@@ -960,8 +1445,15 @@ fn main() {
     for f in &files {
         for line in std::fs::read_to_string(f).unwrap_or_default().lines() {
             let tok: Vec<&str> = line.split_whitespace().collect();
-            if tok.len() == 3 && tok[0] == "storecase" {
-                if let Some(d) = StoreDesc::parse(tok[1], tok[2]) {
+            if (tok.len() == 3 || tok.len() == 4) && tok[0] == "storecase" {
+                if let Some(mut d) = StoreDesc::parse(tok[1], tok[2]) {
+                    if let Some((a, b)) = tok.get(3).and_then(|x| x.strip_prefix("st=")).and_then(|x| x.split_once('.')) {
+                        if let (Ok(a), Ok(b)) = (a.parse::<usize>(), b.parse::<usize>()) {
+                            if a < d.nodes.len() && b < d.nodes.len() {
+                                d.hint = Some((a, b));
+                            }
+                        }
+                    }
                     store_cases.push(d);
                 }
             }
@@ -1007,7 +1499,7 @@ fn main() {
         }
         cx.rep.exhaustive = true;
         cx.rep.exhaustive_note = format!(
-            "all ordered edge listings (weights 1,2,5; self-loops and parallel edges in both listing orders included) with <= 3 edges on 1-2 nodes and <= 2 edges on 3 nodes{}; (source,target) cycles through all pairs including source = target; plus PRNG graphs and stores (not exhaustive)",
+            "all ordered edge listings (weights 1,2,5; self-loops and parallel edges in both listing orders included) with <= 3 edges on 1-2 nodes and <= 2 edges on 3 nodes{}; (source,target) cycles through all pairs including source = target; plus PRNG graphs, structured families (flow zig-zag / ladder / layered / matching / sparse-far, Dijkstra staircase / zero plateaus, nested cycles / chains / condensations, MST incoming-only / disconnected; relabelled, shuffled, mirrored) and stores (not exhaustive)",
             if args.thorough() { ", all 3-edge listings on 3 nodes and all listings of <= 3 edges on 4 nodes" } else { ", and one third (by seed) of the 3-edge listings on 3 nodes" }
         );
         for chunk in cases.chunks(20_000) {
@@ -1024,6 +1516,14 @@ fn main() {
             let t = if rng.chance(1, 12) { s } else { rng.usize(g.n) };
             cases.push(Case { g, s, t, origin: "random", only: None });
         }
+        for chunk in cases.chunks(2_000) {
+            eval_cases(&mut cx, &exe, chunk, bound);
+        }
+        cases.clear();
+
+        // 3a. structured families (see `structured_cases`): quick tier too
+        let per_family = if args.thorough() { 600 } else { 45 };
+        structured_cases(&mut rng, per_family, &mut cases);
         for chunk in cases.chunks(2_000) {
             eval_cases(&mut cx, &exe, chunk, bound);
         }
@@ -1056,8 +1556,28 @@ fn main() {
             let d = random_store(&mut rng);
             eval_store(&mut cx, &mut drv, &d);
         }
+        // structured shapes through build_view + CALL algo.* as well
+        let n_struct = if args.thorough() { 60 } else { 8 };
+        for i in 0..n_struct {
+            let mut tmp = vec![];
+            let sh = match i % 4 {
+                0 => flow_zigzag(&mut rng),
+                1 => flow_matching(&mut rng),
+                2 => mst_incoming(&mut rng),
+                _ => sp_staircase(&mut rng),
+            };
+            finish(&mut rng, sh, "structured-store", &mut tmp);
+            let Some(c) = tmp.pop() else { continue };
+            let d = StoreDesc {
+                nodes: vec![1; c.g.n],
+                edges: c.g.edges.iter().map(|(u, v, w)| (*u, *v, 0u8, if rng.chance(1, 2) { WKind::Int(*w) } else { WKind::Float(*w) })).collect(),
+                hint: Some((c.s, c.t)),
+            };
+            cx.rep.count("structured_stores");
+            eval_store(&mut cx, &mut drv, &d);
+        }
         // the shape of the witness in the property text, through the whole stack
-        let d = StoreDesc { nodes: vec![1, 1, 1], edges: vec![(1, 0, 0, WKind::Int(10)), (1, 0, 0, WKind::Int(1)), (1, 2, 0, WKind::Float(4))] };
+        let d = StoreDesc { nodes: vec![1, 1, 1], edges: vec![(1, 0, 0, WKind::Int(10)), (1, 0, 0, WKind::Int(1)), (1, 2, 0, WKind::Float(4))], hint: None };
         eval_store(&mut cx, &mut drv, &d);
     }
 
